@@ -30,26 +30,27 @@ LEVEL = "exploration"
 
 # ------------------------------------------------------------------ PS-err
 
-# The part of the PS-core prelude the templates use (opaque condition c0, class A
-# with attribute v, ident) plus annotated callables; analysing the full PS-core
-# prelude in every variant would double the cost without adding directive sites.
-PRELUDE = '''\
-c0 = input() == 'y'
-class A:
-  def __init__(self, v=0):
-    self.v = v
-class M:
-  def mi(self, a: int) -> int:
-    return a
-def ident(a):
-  return a
-def fi(a: int, b: int = 0) -> int:
-  return a
-def g2(a, b):
-  return a
-xs: list[int] = []
-ys: list[int] = []
-'''
+# Prelude pieces (the part of the PS-core prelude the templates use -- opaque
+# condition c0, class A with attribute v, ident -- plus annotated callables and
+# containers).  A program gets exactly the pieces whose name it mentions, in this
+# order, so the cost of a variant is not dominated by re-analysing unused
+# definitions and the programs differ in where the first definition sits.
+PIECES = [
+    ("c0", "c0 = input() == 'y'"),
+    ("A", "class A:\n  def __init__(self, v=0):\n    self.v = v"),
+    ("M", "class M:\n  def mi(self, a: int) -> int:\n    return a"),
+    ("ident", "def ident(a):\n  return a"),
+    ("fi", "def fi(a: int, b: int = 0) -> int:\n  return a"),
+    ("g2", "def g2(a, b):\n  return a"),
+    ("xs", "xs: list[int] = []"),
+    ("ys", "ys: list[int] = []"),
+]
+PRELUDE = "".join(text + "\n" for _, text in PIECES)
+
+
+def prelude_for(body):
+  return "".join(text + "\n" for name, text in PIECES if re.search(r"\b%s\b" % name, body))
+
 
 # (id, core?, text).  {n} is replaced by the statement's index in the program so
 # that two instances never share a name.  Indentation unit: two spaces.
@@ -174,7 +175,8 @@ def render(ctx, tids):
   """Program text of template sequence `tids` placed together in context ctx."""
   _, wrap, depth = CTX[ctx]
   body = "\n".join(TPL[t][2].replace("{n}", str(i)) for i, t in enumerate(tids))
-  return PRELUDE + wrap.replace("{n}", "").replace("{T}", _indent(body, depth)) + "\n"
+  text = wrap.replace("{n}", "").replace("{T}", _indent(body, depth)) + "\n"
+  return prelude_for(text) + text
 
 
 def items_for(tier):
